@@ -4,6 +4,7 @@ def b_PhantomObstacle_create_obstacle_node_header : CR.SrcW.Builder where
   kind := .node
   tag := "?obstacle_role.value + 'Obstacle'"
   xsd := "phantomObstacle"
+  path := []
   parent := ""
   attrs := [("id", (.str "_"))]
   gattrs := []
